@@ -1251,8 +1251,64 @@ def check_error_discipline(ck, tree, RP="C01"):
         ck.ob(R, rm, c, bool(w) and any(contains(outer[0], x) and any(x is s or contains(s, x) for s in outer[0].body) for x in w), "delegate.headers_received runs inside the logging context inside the HTTPInputError try")
 
 
+HOST_CASES = [
+    # (version, Host field value or None when the header is absent, expected: "ok" host value | "error")
+    ("HTTP/1.1", None, "error"),                       # missing
+    ("HTTP/1.0", None, ("ok", "127.0.0.1")),           # HTTP/1.0 does not require it
+    ("HTTP/1.1", "", ("ok", "")),                      # present but empty is a legal Host (RFC 9112 3.2), not a missing one
+    ("HTTP/1.0", "", ("ok", "")),
+    ("HTTP/1.1", "example.com", ("ok", "example.com")),
+    ("HTTP/1.1", "example.com:8080", ("ok", "example.com:8080")),
+    ("HTTP/1.1", "[::1]:80", ("ok", "[::1]:80")),
+    ("HTTP/1.0", "example.com", ("ok", "example.com")),
+    ("HTTP/1.1", "a.example,b.example", "error"),      # multiple
+    ("HTTP/1.1", "bad host", "error"),
+    ("HTTP/1.1", "a/b", "error"),
+    ("HTTP/1.1", "user@host", "error"),
+    ("HTTP/1.0", "bad\thost", "error"),
+]
+
+
+def check_host_folded(ck, RP="C01"):
+    """HTTPServerRequest.__init__ folded on concrete (version, Host) pairs: which requests get an object, with which
+    host, and which are refused with HTTPInputError — however the lookup is written (try/KeyError, get(), in)."""
+    from ..x_absint import Obj, UNK, HeaderMap
+    R = RP + ".host-validated"
+    fi = _F(ck, HU, "HTTPServerRequest.__init__")
+    names = fi.params()
+    n = 0
+    for version, host, want in HOST_CASES:
+        ev = mk_evaluator(fi)
+        ev.fallback = regex_folder(ck, fi)
+        h = HeaderMap({"Accept": "*/*"})
+        if host is not None:
+            h["Host"] = host
+        env = {p_: None for p_ in names}
+        env.update({"self": Obj("self"), "headers": h, "start_line": ("GET", "/", version), "version": "HTTP/1.0", "connection": Obj("connection", context=Obj("context", remote_ip="1.2.3.4", protocol="http"))})
+        if "headers" not in names or "start_line" not in names:
+            raise AnalysisError("HTTPServerRequest.__init__: expected headers= and start_line= parameters")
+        outs = ev.run(fi.node, env)
+        if not outs:
+            raise AnalysisError("HTTPServerRequest.__init__: no outcome")
+        for o in outs:
+            n += 1
+            tag = "%s request, %s" % (version, "no Host header" if host is None else "Host: %r" % host)
+            if o.kind == "raise" and not _is_input_error(o.value):
+                ck.ob(R, fi, o.node, False, "%s: refused with HTTPInputError, nothing else (got %s)" % (tag, o.value), construct="host %s %r" % (version, host))
+                continue
+            if want == "error":
+                ck.ob(R, fi, fi.node, o.kind == "raise", "%s is refused with HTTPInputError (400)" % tag, construct="host %s %r" % (version, host))
+            else:
+                got = o.state.env["self"].attrs.get("host", UNK) if o.kind != "raise" else None
+                if got is UNK:
+                    raise AnalysisError("HTTPServerRequest.__init__: host not decidable by folding (%s)" % tag)
+                ck.ob(R, fi, fi.node, o.kind != "raise" and got == want[1], "%s is accepted with host %r — only an absent header counts as missing (got %s)" % (tag, want[1], "HTTPInputError" if o.kind == "raise" else repr(got)), construct="host %s %r" % (version, host))
+    ck.floor(R, n, len(HOST_CASES), "folded Host scenarios")
+
+
 def check_host(ck, env, RP="C01"):
     R = RP + ".host-validated"
+    check_host_folded(ck, RP)
     fi = _F(ck, HU, "HTTPServerRequest.__init__")
     cfg = fi.cfg
     from ..x_http import _stable_path_aliases, _subst_aliases
@@ -1294,7 +1350,8 @@ def check_host(ck, env, RP="C01"):
     # every lookup of the Host header is protected (KeyError handler whose non-raising path is HTTP/1.0-only) or guarded
     hflow = Flow(fi)
     lookups = [n for n in cfg.stmt_nodes(lambda n: node_mentions(n, lambda x: _hdr_get(x, "Host") and isinstance(x.ctx, ast.Load)))]
-    ck.floor(R, len(lookups), 1, "Host header lookups")
+    gets = [n for n in cfg.stmt_nodes(lambda n: node_mentions(n, lambda x: isinstance(x, ast.Call) and q.call_attr(x) == "get" and x.args and _const_str(x.args[0], "Host")))]
+    ck.floor(R, len(lookups) + len(gets), 1, "Host header lookups")
     present = atom_edges(cfg, lambda a: True if _hdr_in(a, "Host") else None)
     for node in lookups:
         h = handler_for(fi, node.ast, "KeyError")
@@ -1667,6 +1724,18 @@ def _use_splitlines(root):
     return True
 
 
+def _empty_host_is_missing(root):
+    for node in ast.walk(root):
+        body = getattr(node, "body", None)
+        if isinstance(body, list):
+            for i, st in enumerate(body):
+                if isinstance(st, ast.Try) and "Host" in ast.unparse(st.body[0]) and st.handlers:
+                    new = [parse_stmt('self.host = self.headers.get("Host", "")'), ast.If(test=parse_expr("not self.host"), body=st.handlers[0].body, orelse=[])]
+                    body[i:i + 1] = new
+                    return True
+    return False
+
+
 RM = "HTTP1Connection._read_message"
 MUTANTS = [
     ("request line: fullmatch -> match", _m(HU, "parse_request_start_line", _attr_call("fullmatch", "match")), "C01.request-line"),
@@ -1712,6 +1781,8 @@ MUTANTS = [
     ("HTTPInputError handler does not close", _m(H1, RM, remove_stmts(lambda st: _u(st) == "self.close()" , limit=1) if False else replace_stmt(lambda st: isinstance(st, ast.Try) and any("HTTPInputError" in _u(h.type) for h in st.handlers if h.type is not None), lambda st: [_drop_close(st)])), "C01.bad-request-400"),
     ("serving loop ignores the result of read_response", _m(H1, "HTTP1ServerConnection._server_request_loop", remove_stmts(lambda st: isinstance(st, ast.If) and _u(st.test) == "not ret")), "C01.loop-stops"),
     ("_ExceptionLoggingContext logs/convert HTTPInputError too", _m(H1, "_ExceptionLoggingContext.__exit__", remove_stmts(lambda st: isinstance(st, ast.If) and "HTTPInputError" in _u(st.test))), "C01.input-error-passthrough"),
+    ("seeded C01-adv5: present-but-empty Host treated as missing", _m(HU, "HTTPServerRequest.__init__", _empty_host_is_missing), "C01.host-validated"),
+    ("HTTP/1.0 default host also replaces a supplied empty Host", _m(HU, "HTTPServerRequest.__init__", replace_stmt(lambda st: isinstance(st, ast.If) and "fullmatch" in _u(st.test) and "host" in _u(st.test), lambda st: [parse_stmt('if not self.host and self.version == "HTTP/1.0":\n    self.host = "127.0.0.1"'), st])), "C01.host-validated"),
     ("Host: comma (multiple Host) check removed", _m(HU, "HTTPServerRequest.__init__", remove_stmts(_if_raise("','"))), "C01.host-validated"),
     ("Host: fullmatch -> match", _m(HU, "HTTPServerRequest.__init__", _attr_call("fullmatch", "match", "host")), "C01.host-validated"),
     ("Host: missing Host tolerated for every version", _m(HU, "HTTPServerRequest.__init__", replace_expr(lambda n: isinstance(n, ast.Compare) and "HTTP/1.0" in _u(n), lambda n: ast.Constant(value=True))), "C01.host-validated"),
